@@ -1,6 +1,7 @@
 import KafVerif.Lemmas.PLogReadSegment
 import KafVerif.Lemmas.PLogReadWhole
 import KafVerif.Lemmas.PLogReadReach
+import KafVerif.Lemmas.PLogLoss
 /-!
 C04 — A fetch below the high watermark always makes progress.
 
@@ -15,6 +16,13 @@ after o, if o falls in a gap); it never consists only of records before o.
 * `fetch_progress`      `Read` as a whole on a good log: non-empty data starting at the holder's first byte.
 * `below_watermark_has_batch`  below `nextOffset` on a chain such a holder exists.
 * `fetch_progress_reachable`   the two combined for EVERY reachable state (declared-length record sets, `Small` run).
+* `fetch_progress_gapped`      `fetch_progress` for a segment list WITH HOLES (`SegGap`).
+* `fetch_progress_after_loss`  any reachable state, then ANY set of index / segment objects lost and a restart at any store offset:
+                        if `RestoreFromS3` succeeds, every fetch at an offset at or below the last retained offset — inside a retained
+                        segment, before the first one, or IN A HOLE between two retained segments — returns non-empty data that
+                        starts at the first byte of the first retained batch reaching the offset.
+* `search_lookup_misses_hole`  witness for the seeded change C04-r2-1: `Read`'s segment lookup rewritten with `sort.Search`
+                        answers nothing for an offset in a hole between two retained segments; the coded lookup snaps forward.
 * `old_livelock`        the code before the fix: three one-record batches in one segment, index
                         interval 100, `Read(2, 61)` returns exactly the batch with base 0 on the cached and on
                         the range-read path; the fixed code returns the batch with base 2.
@@ -149,11 +157,93 @@ theorem _root_.KafVerif.C04.fetch_progress_reachable (iv : Int) (c : Bool) (star
     intro hnil; rw [hnil] at this; simp [hdrMin] at this) o m h t hrun
   exact ⟨h, d, mem_runFrom (by rw [hrun]; simp), hb1, hb2, hd, hdne, hpre⟩
 
-/-! ### the code before the fix -/
+/-- **C04 (log with holes).** `fetch_progress` with `SegGap` in place of `SegChain`: whenever `h` is the first batch of the
+(retained) log that reaches `o` — the batch holding `o`, or the first batch after the gap `o` falls into — `Read` returns
+non-empty data starting at `h`'s first byte. -/
+theorem _root_.KafVerif.C04.fetch_progress_gapped {start : Int} {l : PLog} (m0 : Int) (hseg : SegGap start l.segs m0)
+    (htail : Chain m0 (l.fl ++ l.buf) l.next) (hbuilt : ∀ g ∈ l.segs, SegBuilt l.interval g)
+    (hcoh : Coherent l) (hne : ∀ b ∈ l.fl ++ l.buf, b.bytes ≠ []) (o m : Int)
+    (h : Batch) (t : List Batch) (hrun : runFrom l.log o = h :: t) :
+    ∃ d, (read l o m).2 = .data d ∧ d ≠ [] ∧ (d <+: h.bytes ∨ h.bytes <+: d) ∧ ¬ h.last < o := by
+  have hlog : l.log = segBatches l.segs ++ (l.fl ++ l.buf) := by simp [PLog.log]
+  obtain ⟨_, h2⟩ := read_gapped m0 hseg htail hbuilt hcoh hne o m
+  rw [← hlog, hrun] at h2
+  obtain ⟨d, hd, hdne, hpre⟩ := h2 (by simp)
+  refine ⟨d, hd, hdne, ?_, runFrom_head hrun⟩
+  rw [body_cons] at hpre
+  exact List.prefix_or_prefix_of_prefix hpre (List.prefix_append _ _)
+
+/-- **C04 (after object loss, closed over reachability).** Every reachable state (`RunOK` history), then ANY list of lost objects
+(index object deleted / corrupt, segment object deleted) and a restart at ANY store offset `st ≥ start`.  If `RestoreFromS3`
+succeeds with last restored offset `last`, then for EVERY offset `0 ≤ o ≤ last` (in particular every offset below the restored high
+watermark `last + 1`, including the offsets of a hole between two retained segments and those before the first one) and every
+byte limit, `Read` returns non-empty data that starts at the first byte of `h`, the FIRST retained batch with `o ≤ h.last`
+(every retained batch before `h` ends before `o`).  It never answers offset-out-of-range and never skips a retained segment. -/
+theorem _root_.KafVerif.C04.fetch_progress_after_loss (iv : Int) (c : Bool) (start : Int) (ops : List Op)
+    (hr : RunOK (PLog.new iv c start) ops) (losses : List Loss) (st last : Int) (hst : start ≤ st)
+    (hres : (restoreAt (losses.foldl lose { l := ops.foldl step (PLog.new iv c start) }) st).2 = .ok last)
+    (o m : Int) (ho0 : 0 ≤ o) (ho : o ≤ last) :
+    let l' := (restoreAt (losses.foldl lose { l := ops.foldl step (PLog.new iv c start) }) st).1.l
+    ∃ pre h t d, l'.log = pre ++ h :: t ∧ (∀ b ∈ pre, b.last < o) ∧ o ≤ h.last ∧
+      (read l' o m).2 = .data d ∧ d ≠ [] ∧ (d <+: h.bytes ∨ h.bytes <+: d) := by
+  intro l'
+  obtain ⟨hi, hg, _⟩ := good_reach (PLog.new iv c start) ops (inv_new iv c start) (good_new iv c start) hr
+  obtain ⟨r1, r2, r3, r4, r5, _, r7, r8⟩ := restore_gapped hi hg losses st last hst hres
+  have htail : Chain l'.next (l'.fl ++ l'.buf) l'.next := by
+    show Chain l'.next (l'.fl ++ l'.buf) l'.next; rw [r2, r3]; simp [Chain]
+  have hne : ∀ b ∈ l'.fl ++ l'.buf, b.bytes ≠ [] := by intro b hb; rw [r2, r3] at hb; simp at hb
+  -- some retained batch reaches o: the last batch of the last retained segment
+  have hrne : runFrom l'.log o ≠ [] := by
+    cases hl : l'.segs.getLast? with
+    | none =>
+      have hnil : l'.segs = [] := by simpa using hl
+      have := r8 hnil
+      omega
+    | some g =>
+      obtain ⟨hlast, _⟩ := r7 g hl
+      have hgm : g ∈ l'.segs := List.mem_of_getLast? hl
+      obtain ⟨hgne, hgc, _, _⟩ := seggap_mem r1 g hgm
+      obtain ⟨b, hb, hbl⟩ := getLast_batch hgne hgc
+      have hbm : b ∈ l'.log := by
+        simp only [PLog.log, segBatches, List.mem_append, List.mem_flatten, List.mem_map]
+        exact Or.inl (Or.inl ⟨g.batches, ⟨g, hgm, rfl⟩, hb⟩)
+      exact runFrom_ne_nil hbm (by omega)
+  cases hrun : runFrom l'.log o with
+  | nil => exact absurd hrun hrne
+  | cons h t =>
+    obtain ⟨d, hd, hdne, hpre, hh⟩ := KafVerif.C04.fetch_progress_gapped l'.next r1 htail r4 r5 hne o m h t hrun
+    refine ⟨l'.log.takeWhile (fun b => decide (b.last < o)), h, t, d, ?_, takeWhile_all l'.log o, by omega, hd, hdne, hpre⟩
+    have := split_runFrom l'.log o
+    rw [hrun] at this
+    exact this
+
+/-! ### the segment lookup rewritten as a binary search (seeded change C04-r2-1) -/
 
 /-- a 61-byte one-record batch with a declared length and a marker byte -/
 def tiny (marker : UInt8) : Bytes :=
   [0,0,0,0,0,0,0,0, 0,0,0,49, marker] ++ zeros 44 ++ [0,0,0,1]
+
+/-- three one-record segments (offsets 0, 1, 2); the index object of the middle one is lost; restart at store offset 1 -/
+def holeLog0 : PLog :=
+  ([.append (tiny 1), .flush, .append (tiny 2), .flush, .append (tiny 3), .flush] : List Op).foldl step (PLog.new 1 false 0)
+
+def holeLog : LLog := loseIndex { l := holeLog0 } 1
+
+set_option maxRecDepth 100000 in
+/-- **Witness (seeded change C04-r2-1).** The restore keeps the segments with bases 0 and 2 (the middle one is skipped as
+orphaned), the restored high watermark is 3.  For the fetch offset 1 — in the hole — the coded lookup `findSeg` snaps forward
+to the segment with base 2 and `Read` answers the batch at offset 2; the lookup rewritten with `sort.Search`
+(`findSegSearch`: last segment starting at or before the offset, snap-forward only before the first segment) finds nothing,
+so `Read` would fall through to the (empty) write buffer and answer offset-out-of-range. -/
+theorem _root_.KafVerif.C04.search_lookup_misses_hole :
+    (restoreAt holeLog 1).2 = .ok 2 ∧ ((restoreAt holeLog 1).1.l.segs.map (·.base)) = [0, 2] ∧ (restoreAt holeLog 1).1.l.hw = 3 ∧
+    findSegSearch (restoreAt holeLog 1).1.l.segs 1 = none ∧
+    ((findSeg (restoreAt holeLog 1).1.l.segs 1).map fun r => (r.1.base, r.2)) = some (2, 2) ∧
+    (read (restoreAt holeLog 1).1.l 1 61).2 = .data (patch ((parse (tiny 3)).getD ⟨0, 0, 0, []⟩) 2).bytes := by
+  decide
+
+/-! ### the code before the fix -/
+
 
 /-- three one-record batches flushed into one segment, index interval 100 -/
 def livelockLog (cache : Bool) : PLog :=
